@@ -82,11 +82,16 @@ class Interp:
         self.argv = argv
         self.uninit = uninit
         self.funcs = eprog['funcs']
+        self.overflowed = False
 
     # ---- helpers
     def wrap(self, v):
-        v &= self.mask
-        return v - (1 << self.bits) if v & self.sign else v
+        w = v & self.mask
+        if w & self.sign:
+            w -= 1 << self.bits
+        if w != v:
+            self.overflowed = True
+        return w
 
     def choose(self):
         i = self.ci
@@ -522,7 +527,8 @@ def run(eprog, argv=(), W=2, checked=True, max_steps=400000, max_runs=4000, unin
             total_steps += it.steps
             if trace_all is not None:
                 trace_all.append(list(it.ev))
-            return 'ok', canon_trace(pre, period), {'runs': runs, 'steps': total_steps, 'decisions': it.dec[:it.ci]}
+            return 'ok', canon_trace(pre, period), {'runs': runs, 'steps': total_steps, 'decisions': it.dec[:it.ci],
+                                                    'overflowed': it.overflowed}
         except Fail:
             total_steps += it.steps
             if trace_all is not None:
